@@ -12,7 +12,8 @@ import random
 from .. import gmm_machine_model as gm
 from ..common import key, pin_repo
 
-DEVS = ["FLOOR_SETTER_NO_RECLAMP", "VAR_SETTER_KEEPS_NORMALISER", "WEIGHT_SETTER_KEEPS_LOGW", "LOAD_KEEPS_CACHES"]
+DEVS = ["FLOOR_SETTER_NO_RECLAMP", "VAR_SETTER_KEEPS_NORMALISER", "WEIGHT_SETTER_KEEPS_LOGW", "LOAD_KEEPS_CACHES",
+        "FLOOR_LATE_BOUND_TO_COUNT_THRESHOLD"]
 
 
 def run(ck):
